@@ -213,7 +213,7 @@ impl<'a, 'b> InternalDelphiLogicalLineParser<'a, 'b> {
         );
 
         self.finish_logical_line();
-        self.next_token(); // Eof
+        self.take_eof_token();
         self.set_logical_line_type(LLT::Eof);
         self.finish_logical_line();
         self.result_lines.into()
@@ -1880,7 +1880,20 @@ impl<'a, 'b> InternalDelphiLogicalLineParser<'a, 'b> {
         self.get_current_logical_line_mut().line_type = line_type;
     }
 
+    fn take_eof_token(&mut self) {
+        if let Some(token_index) = self.get_current_token_index() {
+            self.get_current_logical_line_mut().tokens.push(token_index);
+            self.pass_index += 1;
+        }
+    }
+
     fn next_token(&mut self) {
+        if self.get_current_token_type().is_none() {
+            // The Eof token belongs to its own line, and is only taken at the very end of the
+            // parse. Unconditional `next_token` calls (e.g. for an expected `end`) must not
+            // consume it, or run past it, when the input ends early.
+            return;
+        }
         loop {
             if let Some(token_index) = self.get_current_token_index() {
                 self.get_current_logical_line_mut().tokens.push(token_index);
